@@ -1,5 +1,5 @@
 CONSTANTS JCs = {1,2} Horizon = 4 Ids = {0,1,2} Windows <- W0 MaxMissed = 1 MaxDown = 2 MaxOps = 3 MaxLag = 2 MaxFaults = 0 MaxRestarts = 1 MaxTick = 2
-  Pols = {"Allow"} PreBoot = TRUE WithRecon = FALSE Workers = {1}
+  Pols = {"Allow"} PreBoot = TRUE WithRecon = FALSE Workers = {1} Relists = FALSE
 SPECIFICATION Spec
 INVARIANTS TypeOK
 PROPERTIES C01_C03_C04_Pass C04_BootHeap
